@@ -54,7 +54,7 @@ var Check = &run.Check{
 }
 
 var opts = javagen.Opts{MinFiles: 1, MaxFiles: 12, MaxMethods: 10, MaxParams: 7, MaxFields: 4, Interfaces: true, Generics: true, Annotations: true, Ctors: true,
-	Overloads: true, Excluded: true, Bodies: true, MaxStmts: 4, MaxSites: 10, LongNames: true, Lambdas: true, CStyleArrays: true, SuffixImports: true}
+	Overloads: true, Excluded: true, Bodies: true, MaxStmts: 4, MaxSites: 10, LongNames: true, Lambdas: true, CStyleArrays: true, SuffixImports: true, SameNameTwoPkgs: true}
 
 func shape(p *javagen.Project) string {
 	var sb strings.Builder
